@@ -229,7 +229,7 @@ func (o *oracles) checkC02(rep reporter) {
 			rep("exactly-one-balloon", "exactly-one-balloon "+how, "managed container %s (%s, %d mCPU) is in %d balloons", y.spec.ID, y.pod.spec.Namespace, y.cur.MilliCPU, n)
 			continue
 		}
-		if !y.reqUnsure {
+		if !y.reqUnsure && !y.updated {
 			reqOf[b] += y.cur.MilliCPU
 		} else {
 			reqOf[b] = -1 << 30
